@@ -66,6 +66,7 @@ type Ctx struct {
 	unescaped map[string]Term
 	// ghost components whose first key is an object reference
 	refKeyedGhost map[string]bool
+	unescapedT    map[string]types.Type // pointee type of each unescaped allocation
 	compIDs       map[string]int
 }
 
@@ -86,7 +87,7 @@ func newCtx(prog *ssa.Program, db *ContractDB, fn *ssa.Function, fc *FuncContrac
 	c := &Ctx{prog: prog, db: db, top: fn, fc: fc, mode: "int",
 		declared: map[string]bool{}, structs: map[string]*structInfo{}, compSort: map[string]Sort{},
 		strLits: map[string]Term{}, typeTags: map[string]int{}, notes: map[string]int{}, assumed: map[string]bool{},
-		safety: map[string]bool{}, ufs: map[string]bool{}, inlined: map[string]bool{}, opaque: map[string]bool{}, unescaped: map[string]Term{}, refKeyedGhost: map[string]bool{}}
+		safety: map[string]bool{}, ufs: map[string]bool{}, inlined: map[string]bool{}, opaque: map[string]bool{}, unescaped: map[string]Term{}, refKeyedGhost: map[string]bool{}, unescapedT: map[string]types.Type{}}
 	if fc != nil && fc.Arith != "" {
 		switch fc.Arith {
 		case "bv":
